@@ -320,8 +320,107 @@ def unit_powers(rng):
     return out
 
 
+def _owner_of(cls, name):
+    for k in CLASSES[cls].__mro__:
+        if name in vars(k):
+            return k.__name__
+    return cls
+
+
+def _call(cls, name, ops, kw=None, owner=None, how='method'):
+    owner = _owner_of(cls, name)
+    return finish({'type': 'call', 'cls': cls, 'name': name, 'how': how, 'owner': owner or cls, 'ops': ops,
+                   'kw': kw or {}})
+
+
+def corner_grid(rng):
+    """deterministic grid (independent of the seed up to hidden values) over the value-returning members whose bodies
+    have in-place corner paths: integer conversion with a `top` boundary, Polynomial roots/eval/deriv with all-zero
+    coefficient rows, and the own members of Vector3 / Matrix3 / Quaternion / Pair / Matrix on operands with array
+    masks, derivatives, integer dtype"""
+    out = []
+    # --- Scalar.int / Vector.int / as_index…: int-valued receivers that CONTAIN the boundary value
+    tf = [None, True, False]
+    for cls, numer in (('Scalar', []), ('Vector', [2]), ('Pair', [2])):
+        for shape in ([4], [2, 3], []):
+            for dtype in ('int', 'float'):
+                for mask in ('F', 'A'):
+                    recv = {'k': 'q', 'cls': cls, 'shape': shape, 'numer': numer, 'seed': rng.randrange(1 << 20),
+                            'dtype': dtype, 'mask': mask, 'put': 3}
+                    top = py(3) if not numer else tup(*([3] * numer[0]))
+                    out.append(_call(cls, 'int', [recv, top], owner='Scalar' if cls == 'Scalar' else 'Vector'))
+                    out.append(_call(cls, 'int', [recv], owner='Scalar' if cls == 'Scalar' else 'Vector'))
+                    for remask in (False, True):
+                        for clip in (False, True):
+                            for shift in tf:
+                                for incl in (True, False):
+                                    kw = {'remask': py(remask), 'clip': py(clip), 'inclusive': py(incl)}
+                                    if shift is not None:
+                                        kw['shift'] = py(shift)
+                                    out.append(_call(cls, 'int', [recv, top], kw,
+                                                     owner='Scalar' if cls == 'Scalar' else 'Vector'))
+                    for nm in ('as_index', 'as_index_and_mask', 'frac', 'sign', 'abs', 'as_int', 'as_float',
+                               'as_bool', 'as_numeric', 'sort', 'max', 'min', 'argmax', 'argmin', 'median', 'sum',
+                               'mean', 'clip_component'):
+                        if hasattr(CLASSES[cls], nm):
+                            ops = [recv]
+                            if nm == 'clip_component':
+                                ops = [recv, py(0), py(0), py(2)]
+                            out.append(_call(cls, nm, ops, owner='?'))
+    # --- Polynomial: orders 1..4, every mask representation, all-zero coefficient rows (masked and unmasked)
+    for order in (1, 2, 3, 4):
+        for shape in ([3], [2, 2], []):
+            n = int(np.prod(shape, dtype=int))
+            for mask in ('F', 'A', 'T', 'Z', [False] * n, [i % 2 == 1 for i in range(n)]):
+                if not shape and isinstance(mask, list):
+                    continue
+                for zrow in ([], [0], [0, -1]):
+                    for derivs in (False, True):
+                        recv = {'k': 'q', 'cls': 'Polynomial', 'shape': shape, 'numer': [order + 1], 'dtype': 'float',
+                                'seed': rng.randrange(1 << 20), 'mask': mask, 'zrow': zrow}
+                        if derivs:
+                            recv['derivs'] = {'t': {'k': 'q', 'cls': 'Polynomial', 'shape': shape,
+                                                    'numer': [order + 1], 'dtype': 'float', 'mask': 'F',
+                                                    'seed': rng.randrange(1 << 20)}}
+                        out.append(_call('Polynomial', 'roots', [recv]))
+                        out.append(_call('Polynomial', 'roots', [recv], {'recursive': py(False)}))
+                        out.append(_call('Polynomial', 'deriv', [recv]))
+                        x = {'k': 'q', 'cls': 'Scalar', 'shape': shape, 'numer': [], 'dtype': 'float',
+                             'seed': rng.randrange(1 << 20), 'mask': 'A' if shape else 'F'}
+                        out.append(_call('Polynomial', 'eval', [recv, x]))
+                        if not zrow:
+                            continue
+                        out.append(_call('Polynomial', 'invert_line', [recv]))
+                        out.append(_call('Polynomial', 'at_least_order', [recv, py(order + 1)]))
+                        out.append(_call('Polynomial', 'set_order', [recv, py(order + 1)]))
+    # --- the own members of the geometric classes on "corner" receivers
+    rows = [r for r in S.api_table() if r[0] == r[3] and r[0] in ('Vector3', 'Matrix3', 'Quaternion', 'Pair', 'Matrix',
+                                                                   'Vector', 'Scalar')]
+    for cname, name, how, owner in rows:
+        if how not in ('method', 'prop'):
+            continue
+        for variant in range(3):
+            recv = q(rng, cname, shape=[[3], [2, 2], []][variant], plain=True,
+                     mask=['A', [True, False, False, True], 'F'][variant])
+            recv['zrow'] = [0]
+            if variant == 0 and CLASSES[cname].DERIVS_OK:
+                recv['derivs'] = {'t': dict(recv, seed=rng.randrange(1 << 20), mask='A')}
+                recv['derivs']['t'].pop('zrow')
+            if variant == 1 and CLASSES[cname].INTS_OK:
+                recv['dtype'] = 'int'
+            if cname == 'Matrix3':
+                recv.pop('zrow')
+                recv['style'] = 'rot'
+            c = one_call(rng, cname, name, how, owner)
+            if c is None:
+                continue
+            c['ops'][0] = recv
+            out.append(finish(c))
+    return out
+
+
 def targeted(rng, n):
-    out = unit_powers(rng)
+    out = unit_powers(rng) + corner_grid(rng)
     for _ in range(n):
         m = Mx = q(rng, 'Matrix', numer=rng.choice([[2, 2], [3, 3]]), singular=rng.random() < 0.7,
                    shape=rng.choice([[], [2], [3], [2, 2]]))
@@ -498,7 +597,14 @@ def possible_members():
     try:
         import c07_py2lean as T
         sites, _ = T.scan()
-        return {tuple(s['fn'].split('.', 1)) for s in sites if s['root'][0] == 'may'}
+        out = {}
+        for s in sites:
+            key = (s['fn'], s['kind'], s['target'])
+            if s['root'][0] == 'may':
+                out.setdefault(tuple(s['fn'].split('.', 1)), 4)
+            elif s['root'][0] == 'param' and key not in T.ALLOW:
+                out[tuple(s['fn'].split('.', 1))] = 12      # a write site flagged by T2 drives case generation
+        return out
     except Exception:
         return set()
 
@@ -560,7 +666,9 @@ def gen_cases(rng, tier):
         own = owner == cname
         k = (24 if own else 8) if thorough else (8 if own else 3)
         if (owner, name) in monitored:
-            k *= 4          # functions with POSSIBLE (may-alias) write sites are monitored more closely
+            # functions with POSSIBLE (may-alias) write sites get 4x the draws, functions with a write site that T2
+            # flags as tainted 12x (the table of write sites drives the search for the concrete failing input)
+            k *= monitored[(owner, name)]
         if cname == 'Units':
             k *= 2
         for _ in range(k):
